@@ -215,14 +215,17 @@ func (r *runner) progress() [5]int64 {
 // waitUntil polls cond; it gives up (false) when nothing at all has moved for `quiet`, or after 15 s.  On the unchanged
 // tree every wait of opResync ends through cond; the quiet period only matters when an expected event never comes.
 func (r *runner) waitUntil(cond func() bool, quiet time.Duration) bool {
-	deadline := time.Now().Add(15 * time.Second)
-	last, lastMove := r.progress(), time.Now()
+	// "quiet" = no progress during `quiet` of wall-clock time AND during 500 polls of this loop (a process that was
+	// not scheduled at all makes no progress but does not poll either)
+	deadline := time.Now().Add(20 * time.Second)
+	last, lastMove, idle := r.progress(), time.Now(), 0
 	for !cond() {
 		now := time.Now()
 		if p := r.progress(); p != last {
-			last, lastMove = p, now
+			last, lastMove, idle = p, now, 0
 		}
-		if now.After(deadline) || now.Sub(lastMove) > quiet {
+		idle++
+		if now.After(deadline) || (idle > 500 && now.Sub(lastMove) > quiet) {
 			return cond()
 		}
 		time.Sleep(100 * time.Microsecond)
@@ -301,6 +304,7 @@ func (r *runner) opResync(kind string, kv map[string]string) (string, string) {
 	finishedRounds := func() int64 { return atomic.LoadInt64(&theLogger.finished) - startFin }
 	waiting := func() int { r.fc.mu.Lock(); defer r.fc.mu.Unlock(); return r.fc.waiting }
 	const quiet = 1500 * time.Millisecond
+	held := int64(-1) // twice=1: number of re-broadcast goroutines seen blocked at the gate, if fewer than expected
 
 	switch {
 	case kind == "restart":
@@ -338,6 +342,10 @@ func (r *runner) opResync(kind string, kv map[string]string) (string, string) {
 		// second RescanFinished delivered while the first re-broadcast is still blocked; its own re-broadcast
 		// (if the wallet starts one) gets stuck as well
 		r.waitUntil(func() bool { return r.fc.allDelivered() && finishedRounds() >= 2 && waiting() >= 2 }, quiet)
+		if n := int64(waiting()); n >= 1 && n < rounds {
+			// only n re-broadcasts exist after a quiet period: do not wait for the offers of one that was never started
+			held = n
+		}
 		release()
 		if !r.fc.allDelivered() || finishedRounds() < 2 {
 			return "harness-error second rescan did not finish", ""
@@ -359,7 +367,12 @@ func (r *runner) opResync(kind string, kv map[string]string) (string, string) {
 	if !r.waitUntil(func() bool { return r.fc.allDelivered() && finishedRounds() >= rounds }, quiet) {
 		return "harness-error rescan did not finish", ""
 	}
-	r.waitUntil(func() bool { return atomic.LoadInt64(&theLogger.rebroadcasts)-start >= rounds*nExpected }, quiet)
+	if held >= 0 {
+		r.waitUntil(func() bool { return atomic.LoadInt64(&theLogger.rebroadcasts)-start >= held*nExpected }, quiet)
+		r.waitUntil(func() bool { return atomic.LoadInt64(&theLogger.rebroadcasts)-start >= rounds*nExpected }, 300*time.Millisecond)
+	} else {
+		r.waitUntil(func() bool { return atomic.LoadInt64(&theLogger.rebroadcasts)-start >= rounds*nExpected }, quiet)
+	}
 	if nExpected == 0 {
 		time.Sleep(2 * time.Millisecond) // the goroutine only reads an empty list
 	}
